@@ -25,9 +25,10 @@ from __future__ import annotations
 
 import ast
 
+from sa.flow import subst
 from sa.model import walk_no_nested, src
 from sa.pat import same, attr_path
-from .c13_util import (fx_of, split_cases, helper_opaque, sym_facts, cond_text, StaticNames, KeyEnv, eval_filter,
+from .c13_util import (bind_call, package_helper, built_list, fx_of, split_cases, helper_opaque, sym_facts, cond_text, StaticNames, KeyEnv, eval_filter,
                        failing_atoms, generic_copies, set_attr_call, get_attr_expr, keys_owner, dict_owner, parent_map,
                        call_kwargs, const_str, const_seq, module_const_stmt, module_consts, is_empty_container)
 
@@ -128,7 +129,27 @@ def find_reader(ctx, o):
     """-> dict(func, fx, reader_call, loop, rowvar, hdr_name, hdr_value, ctor) of read_csv or None"""
     f = ctx.prog.func(CSV + '.read_csv')
     fx = fx_of(ctx, f)
-    ctors = [c for c in walk_no_nested(f.node) if isinstance(c, ast.Call) and isinstance(c.func, ast.Name) and c.func.id == 'TaskRaw']
+    is_ctor = lambda c: isinstance(c, ast.Call) and isinstance(c.func, ast.Name) and c.func.id == 'TaskRaw'
+    ctors = [c for c in walk_no_nested(f.node) if is_ctor(c)]
+    if not ctors:
+        # the row -> TaskRaw conversion may live in a private helper called once per row
+        for c in walk_no_nested(f.node):
+            hf = package_helper(ctx, f, c) if isinstance(c, ast.Call) else None
+            if hf is None or hf.module is not f.module:
+                continue
+            inner = [x for x in walk_no_nested(hf.node) if is_ctor(x)]
+            fors = fx.enclosing_fors(c)
+            b = bind_call(c, hf)
+            if len(inner) != 1 or len(fors) != 1 or not isinstance(fors[0].target, ast.Name) or b is None \
+                    or fx_of(ctx, hf).enclosing_fors(inner[0]):
+                continue
+            rowp = [p_ for p_, a in b.items() if isinstance(a, ast.Name) and a.id == fors[0].target.id]
+            it = fx.x(fors[0].iter)
+            if len(rowp) != 1 or not (isinstance(it, ast.Call) and _is_csv_call(f, it, 'reader')):
+                continue
+            bind = {p_: fx.x(a) for p_, a in b.items() if p_ != rowp[0]}
+            return dict(func=hf, fx=fx_of(ctx, hf), reader=it, loop=fors[0], rowvar=rowp[0], ctor=inner[0], cfunc=f, cfx=fx,
+                        bind=bind, helper=True)
     if len(ctors) != 1:
         o.undecided(f, f.node, 'read_csv TaskRaw(...)', f"expected exactly one TaskRaw(...) call in read_csv, found {len(ctors)}")
         return None
@@ -142,7 +163,7 @@ def find_reader(ctx, o):
     if not (isinstance(it, ast.Call) and _is_csv_call(f, it, 'reader')):
         o.undecided(f, loop, loop.iter, f"rows are not iterated from csv.reader(...) (`{src(it)}`)")
         return None
-    return dict(func=f, fx=fx, reader=it, loop=loop, rowvar=loop.target.id, ctor=ctor)
+    return dict(func=f, fx=fx, reader=it, loop=loop, rowvar=loop.target.id, ctor=ctor, cfunc=f, cfx=fx, bind={}, helper=False)
 
 
 def _cell_of(expr, rowvar):
@@ -189,9 +210,36 @@ def ob_columns(ctx, o, F):
         o.refute(f, hcall, 'header after rows', "the header row is not written before the row loop on every path")
     # ---- row literal
     r = fx.x(rcall.args[0], keep=[rowvar])
-    rfixed, rcustom = _split_concat(r)
+    rowf = f
+    hf = package_helper(ctx, f, r)
+    if hf is not None and hf.module is f.module:
+        # the row is built by a private helper: read the row literal (and the custom cells appended to it) there
+        b = bind_call(r, hf)
+        taskp = [p_ for p_, a in (b or {}).items() if isinstance(a, ast.Name) and a.id == rowvar]
+        rets = [n for n in walk_no_nested(hf.node) if isinstance(n, ast.Return)]
+        built = None
+        if b is not None and len(taskp) == 1 and len(rets) == 1 and rets[0].value is not None:
+            fxh = fx_of(ctx, hf)
+            rv = rets[0].value
+            if isinstance(rv, ast.Name):
+                built = built_list(fxh, rv.id, rv, [taskp[0]])
+            if built is None and not (isinstance(rv, ast.Name) and any(isinstance(n, ast.Call) and isinstance(n.func, ast.Attribute)
+                                      and isinstance(n.func.value, ast.Name) and n.func.value.id == rv.id for n in walk_no_nested(hf.node))):
+                built = _split_concat(fxh.x(rv, keep=[taskp[0]]))
+        if built is None:
+            o.undecided(f, rcall, rcall, f"row is built by `{hf.name}` in a way the rule does not recognise")
+            return
+        others = {p_: a for p_, a in b.items() if p_ != taskp[0]}
+        r = None
+        rfixed = subst(built[0], others)
+        rcustom = subst(built[1], others) if built[1] is not None else None
+        rowf, rowvar = hf, taskp[0]
+        F.row_var = ast.Name(id=rowvar, ctx=ast.Load())
+    else:
+        rfixed, rcustom = _split_concat(r)
+    F.row_func = rowf
     if not isinstance(rfixed, (ast.List, ast.Tuple)) or any(isinstance(e, ast.Starred) for e in rfixed.elts):
-        o.undecided(f, rcall, rcall, f"row `{src(r)[:100]}` is not <list literal> + <custom cells>")
+        o.undecided(f, rcall, rcall, f"row `{src(r if r is not None else rfixed)[:100]}` is not <list literal> + <custom cells>")
         return
     elts = rfixed.elts
     if len(elts) != len(COLUMNS):
@@ -203,14 +251,14 @@ def ob_columns(ctx, o, F):
         attrs = sorted({n.attr for n in ast.walk(e) if isinstance(n, ast.Attribute) and isinstance(n.value, ast.Name)
                         and n.value.id == rowvar})
         if attrs == [col]:
-            o.site(f, rcall, f"cell {i} <- {rowvar}.{col}")
+            o.site(rowf, None if rowf is not f else rcall, f"cell {i} <- {rowvar}.{col}")
         elif not attrs:
-            o.undecided(f, rcall, e, f"cell {i} (column {col}) does not read an attribute of the row task `{rowvar}`")
+            o.undecided(rowf, None if rowf is not f else rcall, e, f"cell {i} (column {col}) does not read an attribute of the row task `{rowvar}`")
         else:
-            o.refute(f, rcall, f"cell {i}: {src(e)[:80]}", f"cell {i} is written under header `{col}` but derives from "
+            o.refute(rowf, None if rowf is not f else rcall, f"cell {i}: {src(e)[:80]}", f"cell {i} is written under header `{col}` but derives from "
                                                            f"{', '.join(rowvar + '.' + a for a in attrs)}; expected {rowvar}.{col}")
     # ---- custom columns: header part and row part iterate the same discovered list
-    _custom_columns(ctx, o, F, f, fx, hcall, rcall, hcustom, rcustom, rfor)
+    _custom_columns(ctx, o, F, f, fx, hcall, rcall, hcustom, rcustom, rfor, rowvar, rowf)
 
 
 def fx_resolve_module(mod, node):
@@ -266,8 +314,7 @@ def _keys_of_dict(e):
     return None
 
 
-def _custom_columns(ctx, o, F, f, fx, hcall, rcall, hcustom, rcustom, rfor):
-    rowvar = rfor.target.id
+def _custom_columns(ctx, o, F, f, fx, hcall, rcall, hcustom, rcustom, rfor, rowvar, rowf):
     if hcustom is None and rcustom is None:
         o.refute(f, hcall, 'no custom columns', "neither the header nor the rows carry custom attribute columns")
         return
@@ -290,7 +337,7 @@ def _custom_columns(ctx, o, F, f, fx, hcall, rcall, hcustom, rcustom, rfor):
     o.site(f, rcall, f"header and rows iterate the same custom list {src(g.iter)[:40]}")
     # ---- cell value
     good = True
-    for conds, leaf in split_cases(ctx, f, rcustom.elt):
+    for conds, leaf in split_cases(ctx, rowf, rcustom.elt):
         if isinstance(leaf, ast.Constant) and leaf.value in ('', None):
             continue          # absent attribute -> empty cell
         inner = leaf
@@ -397,7 +444,7 @@ def ob_reader_keys(ctx, o, F):
             full = cs0[0][1]
             break
     if full is not None:
-        for n in ast.walk(loop):
+        for n in ast.walk(f.node if r['helper'] else loop):
             if isinstance(n, ast.Name) and isinstance(n.ctx, ast.Load) and n.id != rowvar and n.id not in keepn \
                     and fx.flow.node_of_expr(n) is not None and same(fx.x(n), full) and not same(n, full):
                 keepn.append(n.id)
@@ -405,6 +452,15 @@ def ob_reader_keys(ctx, o, F):
     for k, v in kw.items():
         vx = fx.x(v, keep=keepn)
         cs = _cell_of(vx, rowvar)
+        if not cs:
+            # row[<arithmetic on header['K']>]: the cell of another column
+            off = [n for n in ast.walk(vx) if isinstance(n, ast.Subscript) and isinstance(n.value, ast.Name) and n.value.id == rowvar
+                   and isinstance(n.slice, (ast.BinOp, ast.UnaryOp)) and any(isinstance(m, ast.Subscript) and const_str(m.slice) == k
+                                                                              for m in ast.walk(n.slice))]
+            if off:
+                o.refute(f, ctor, f"{k}: {src(off[0])[:60]}", f"TaskRaw keyword `{k}` is read from `{src(off[0])[:60]}`: the column index from the header map is "
+                                                              f"shifted, so the value comes from another column")
+                continue
         if not cs or const_str(cs[0][2]) is None or any(not same(c[0], cs[0][0]) for c in cs):
             o.undecided(f, ctor, v, f"TaskRaw keyword `{k}` is not computed from exactly one cell row[header['<name>']]")
             continue
@@ -427,7 +483,8 @@ def ob_reader_keys(ctx, o, F):
     # ---- header map: all cells use the same map, built as name -> index from the first row of the same reader
     hmaps = {src(h) for h in hdr_exprs}
     if len(hmaps) == 1 and full is not None:
-        _header_map(ctx, o, F, r, full)
+        full_c = r['bind'][full.id] if isinstance(full, ast.Name) and full.id in r['bind'] else full
+        _header_map(ctx, o, F, r, full_c)
     elif hmaps:
         o.undecided(f, ctor, ctor, "cells are looked up through different header maps")
     # ---- everything else -> **kwargs
@@ -439,7 +496,7 @@ def ob_reader_keys(ctx, o, F):
 
 def _header_map(ctx, o, F, r, hexpr):
     """hexpr: the (expanded) header map expression used in cells"""
-    f, fx, loop = r['func'], r['fx'], r['loop']
+    f, fx, loop = r['cfunc'], r['cfx'], r['loop']
     prog = ctx.prog
     # hexpr after expansion is the defining expression of the header map (a helper call or a dict comprehension)
     first_row = None
@@ -576,12 +633,11 @@ def _kwargs_fill(ctx, o, F, r, star, consumed):
                 key, val = fx.x(st.targets[0].slice, keep=keep), fx.x(st.value, keep=keep)
                 target, it = fors[0].target, fx.x(fors[0].iter)
                 # conditions inside the row loop only
-                outer = {id(t) for t, _ in fx.cfg.conditions(fx.cfg.node_of(r['loop']))}
                 conds = fx.conds(st)
                 at = st
                 # the accumulator must be reset for every row
                 dv = fx.def_value(sx.id, ctor)
-                if dv is None or not is_empty_container(dv) or r['loop'] not in fx.enclosing_fors(dv):
+                if dv is None or not is_empty_container(dv) or (not r['helper'] and r['loop'] not in fx.enclosing_fors(dv)):
                     o.undecided(f, st, sx, f"`{sx.id}` is not re-initialised to an empty dict for every row")
                     return
     if key is None:
@@ -1063,7 +1119,8 @@ def ob_converters(ctx, o, F):
         return
     f, fx, hcall, rcall, rfor = w
     W, R = {}, {}
-    rowvar = rfor.target.id
+    rowvar = F.row_var.id if isinstance(F.row_var, ast.Name) else rfor.target.id
+    wfun = getattr(F, 'row_func', None) or f
     if F.row_elts is None:
         o.undecided(f, rcall, 'row literal', "the row literal was not recognised (see C13.columns): writer forms cannot be paired with columns")
     else:
@@ -1071,7 +1128,7 @@ def ob_converters(ctx, o, F):
             S = ast.Attribute(value=ast.Name(id=rowvar, ctx=ast.Load()), attr=col, ctx=ast.Load())
             if not _mentions(e, S):
                 continue        # reported by C13.columns
-            _writer_column(ctx, o, f, rcall, col, e, S, W)
+            _writer_column(ctx, o, wfun, rcall if wfun is f else None, col, e, S, W)
     rf = r['func']
     cells = F.reader_cells
     if cells is None:
@@ -1574,6 +1631,9 @@ SENTINELS = ('EMPTY_TASK_ID',)
 
 def _id_funcs(prog):
     out = [prog.func(RAW + '.tasks_to_raws'), prog.func(RAW + '.raws_to_wbs'), prog.func(CSV + '.read_csv'), prog.func(CSV + '.write_csv')]
+    for q, fn in prog.funcs.items():
+        if fn.kind == 'function' and fn.module.name in (CSV, RAW) and fn not in out and not q.startswith(CSV + '.__parse'):
+            out.append(fn)      # private helpers extracted from the four entry points
     return out
 
 
@@ -1714,7 +1774,7 @@ _REORDER_M = ('sort', 'reverse', 'shuffle')
 def _order_funcs(prog):
     fs = _id_funcs(prog)
     for q, fn in prog.funcs.items():
-        if q.startswith(CSV + '.__') and fn.kind == 'function':
+        if q.startswith(CSV + '.__') and fn.kind == 'function' and fn not in fs:
             fs.append(fn)
     return fs
 
